@@ -20,7 +20,9 @@ pub enum Op {
     Sequence,
 }
 
-pub const VALUES: [u64; 4] = [100, 300, 500, 1000];
+/// small base times, and two at the top of the range (more than 2^63 ms from the small ones: a
+/// comparison done on a wrapped or signed difference gets them wrong)
+pub const VALUES: [u64; 6] = [100, 300, 500, 1000, 1 << 63, u64::MAX];
 
 pub fn alphabet() -> Vec<Op> {
     let mut v = Vec::new();
@@ -165,7 +167,7 @@ pub fn run(ctx: &Ctx) -> Report {
     let mut rep = Report::new();
     let ops = alphabet();
     let n = ops.len();
-    let depth = ctx.tier.pick(6usize, 7);
+    let depth = ctx.tier.pick(5usize, 7);
     let mut unit = 0usize;
     for len in 0..=depth {
         let total = n.pow(len as u32);
